@@ -123,51 +123,7 @@ def serialise(model, fmt, rng):
     if fmt == 'json':
         if rng.random() < 0.75:
             return corpus.rg_json_text(model)
-        # rg --json --multiline: consecutive matching lines of a file reported in one record (text with line breaks inside,
-        # one line number, submatch offsets counted over the whole text - a match may run across a line end).  The model keeps
-        # one entry per line of the file: that is what has to be shown.
-        import json
-        out = []
-        for fi, (p, hits) in enumerate(model):
-            out.append(json.dumps({'type': 'begin', 'data': {'path': {'text': p}}}))
-            i = 0
-            while i < len(hits):
-                grp = [i]
-                while (grp[-1] + 1 < len(hits) and hits[grp[-1] + 1][1] == 'match' and hits[grp[-1]][1] == 'match'
-                       and hits[grp[-1] + 1][0] == hits[grp[-1]][0] + 1 and len(grp) < 3 and rng.random() < 0.8):
-                    grp.append(grp[-1] + 1)
-                crlf = len(grp) > 1 and rng.random() < 0.2
-                eol = '\r\n' if crlf else '\n'
-                text = ''
-                subs = []
-                for gi, k in enumerate(grp):
-                    ln, kind, code, sb = hits[k]
-                    off = len(text.encode('utf-8'))
-                    sb = list(sb)
-                    if gi > 0 and subs and hits[grp[gi - 1]][3] and rng.random() < 0.4:
-                        # the previous match runs on across the line end into this line
-                        prev_ln, prev_kind, prev_code, prev_sb = hits[grp[gi - 1]]
-                        plen = len(prev_code.encode('utf-8'))
-                        b = code.encode('utf-8')
-                        cut = next((n for n in range(1, len(b) + 1) if (n == len(b) or (b[n] & 0xC0) != 0x80)), len(b)) if b else 0
-                        s0 = subs[-1][0]
-                        subs[-1] = (s0, off + cut)
-                        hits[grp[gi - 1]] = (prev_ln, prev_kind, prev_code, list(prev_sb[:-1]) + [(prev_sb[-1][0], plen)])
-                        sb = [(0, cut)] + [(a, z) for a, z in sb if a >= cut]
-                        hits[k] = (ln, kind, code, sb)
-                        subs += [(off + a, off + z) for a, z in sb[1:]]
-                    else:
-                        subs += [(off + a, off + z) for a, z in sb]
-                    text += code + eol
-                ln0, kind0 = hits[grp[0]][0], hits[grp[0]][1]
-                tb = text.encode('utf-8')
-                out.append(json.dumps({'type': kind0, 'data': {'path': {'text': p}, 'lines': {'text': text}, 'line_number': ln0, 'absolute_offset': ln0 * 10,
-                                                               'submatches': [{'match': {'text': tb[a:z].decode('utf-8', 'replace')}, 'start': a, 'end': z} for a, z in subs]}}))
-                i = grp[-1] + 1
-            out.append(json.dumps({'type': 'end', 'data': {'path': {'text': p}, 'binary_offset': None, 'stats': {'elapsed': {'secs': 0, 'nanos': 1, 'human': '0s'},
-                                                                                                               'searches': 1, 'searches_with_match': 1, 'bytes_searched': 10,
-                                                                                                               'bytes_printed': 10, 'matched_lines': 1, 'matches': 1}}}))
-        return '\n'.join(out) + '\n'
+        return corpus.rg_json_text_multiline(model, rng)
     numbers = fmt.endswith('-n')
     for p, hits in model:
         prev = None
